@@ -481,7 +481,18 @@ mod sync_impl {
             let prev = *r.value();
             hold_points(hold);
             if let Some(w) = write {
-                r.write(w);
+                if hold > 0 {
+                    // a multi-step in-place update, as a client with a larger value would
+                    // do it: nobody may see the half-written value (the reference keeps
+                    // the shard locked exclusively)
+                    r.value_mut().id = w.id;
+                    hold_points(hold);
+                    let m = r.value_mut();
+                    m.key = w.key;
+                    m.size = w.size;
+                } else {
+                    r.write(w);
+                }
             }
             let left = *r.value();
             r.release();
@@ -534,7 +545,18 @@ mod async_impl {
             let prev = *r.value();
             hold_points(hold);
             if let Some(w) = write {
-                r.write(w);
+                if hold > 0 {
+                    // a multi-step in-place update, as a client with a larger value would
+                    // do it: nobody may see the half-written value (the reference keeps
+                    // the shard locked exclusively)
+                    r.value_mut().id = w.id;
+                    hold_points(hold);
+                    let m = r.value_mut();
+                    m.key = w.key;
+                    m.size = w.size;
+                } else {
+                    r.write(w);
+                }
             }
             let left = *r.value();
             r.release();
@@ -615,7 +637,18 @@ macro_rules! typed_api {
                 let prev = *r.value();
                 hold_points(hold);
                 if let Some(w) = write {
-                    r.write(w);
+                    if hold > 0 {
+                        // a multi-step in-place update, as a client with a larger value would
+                        // do it: nobody may see the half-written value (the reference keeps
+                        // the shard locked exclusively)
+                        r.value_mut().id = w.id;
+                        hold_points(hold);
+                        let m = r.value_mut();
+                        m.key = w.key;
+                        m.size = w.size;
+                    } else {
+                        r.write(w);
+                    }
                 }
                 let left = *r.value();
                 r.release();
@@ -758,35 +791,53 @@ pub fn build(cfg: &Cfg) -> Result<Box<dyn Api>, String> {
     MASK_CONFLICT.store(false, Ordering::SeqCst);
     LOCAL_EXEC.store(cfg.flavor == Flavor::AsyncLocal, Ordering::SeqCst);
     stretto_sim_rt::local::reset();
+    // The builder is driven along one of four recipes (constructor and order of the setters):
+    // every type-changing setter rebuilds the builder field by field, so what an earlier
+    // setter stored must survive every later one.
+    macro_rules! recipe {
+        ($B:ident) => {{
+            let d = cfg.use_defaults;
+            let ms = Duration::from_millis(cfg.cleanup_ms);
+            match cfg.recipe % 4 {
+                0 => {
+                    let mut b = $B::<u64, Val, HKb>::new_with_key_builder(cfg.num_counters, cfg.max_cost, kb);
+                    if !d {
+                        b = b.set_buffer_size(cfg.buffer_size).set_buffer_items(cfg.buffer_items).set_metrics(cfg.metrics).set_ignore_internal_cost(cfg.ignore_internal_cost).set_cleanup_duration(ms);
+                    }
+                    b.set_coster(HCoster(cfg.coster)).set_update_validator(HValidator(cfg.validator.clone())).set_callback(cb).set_hasher(SeedState(cfg.hasher_seed))
+                }
+                1 => {
+                    // plain constructor, scalars first, every type-changing setter afterwards
+                    let mut b = $B::<u64, Val>::new(cfg.num_counters.max(2) * 3, cfg.max_cost / 2 + 7);
+                    if !d {
+                        b = b.set_cleanup_duration(ms).set_ignore_internal_cost(cfg.ignore_internal_cost).set_metrics(cfg.metrics).set_buffer_items(cfg.buffer_items).set_buffer_size(cfg.buffer_size);
+                    }
+                    b.set_num_counters(cfg.num_counters).set_max_cost(cfg.max_cost).set_key_builder(kb).set_coster(HCoster(cfg.coster)).set_update_validator(HValidator(cfg.validator.clone())).set_callback(cb).set_hasher(SeedState(cfg.hasher_seed))
+                }
+                2 => {
+                    // type-changing setters first (reverse order), scalars afterwards
+                    let b = $B::<u64, Val>::new(cfg.num_counters, cfg.max_cost).set_hasher(SeedState(cfg.hasher_seed)).set_callback(cb).set_update_validator(HValidator(cfg.validator.clone())).set_coster(HCoster(cfg.coster)).set_key_builder(kb);
+                    if !d {
+                        b.set_buffer_size(cfg.buffer_size).set_cleanup_duration(ms).set_metrics(cfg.metrics).set_buffer_items(cfg.buffer_items).set_ignore_internal_cost(cfg.ignore_internal_cost)
+                    } else {
+                        b
+                    }
+                }
+                _ => {
+                    // interleaved; counters and capacity last
+                    let b = $B::<u64, Val>::new(64, 1);
+                    if !d {
+                        b.set_metrics(cfg.metrics).set_hasher(SeedState(cfg.hasher_seed)).set_ignore_internal_cost(cfg.ignore_internal_cost).set_callback(cb).set_cleanup_duration(ms).set_key_builder(kb).set_buffer_size(cfg.buffer_size).set_coster(HCoster(cfg.coster)).set_buffer_items(cfg.buffer_items).set_update_validator(HValidator(cfg.validator.clone())).set_max_cost(cfg.max_cost).set_num_counters(cfg.num_counters)
+                    } else {
+                        b.set_hasher(SeedState(cfg.hasher_seed)).set_callback(cb).set_key_builder(kb).set_coster(HCoster(cfg.coster)).set_update_validator(HValidator(cfg.validator.clone())).set_max_cost(cfg.max_cost).set_num_counters(cfg.num_counters)
+                    }
+                }
+            }
+        }};
+    }
     match cfg.flavor {
-        Flavor::Sync => {
-            let b = CacheBuilder::<u64, Val, HKb>::new_with_key_builder(cfg.num_counters, cfg.max_cost, kb)
-                .set_buffer_size(cfg.buffer_size)
-                .set_buffer_items(cfg.buffer_items)
-                .set_metrics(cfg.metrics)
-                .set_ignore_internal_cost(cfg.ignore_internal_cost)
-                .set_cleanup_duration(Duration::from_millis(cfg.cleanup_ms))
-                .set_coster(HCoster(cfg.coster))
-                .set_update_validator(HValidator(cfg.validator.clone()))
-                .set_callback(cb)
-                .set_hasher(SeedState(cfg.hasher_seed));
-            b.finalize().map(|c| Box::new(c) as Box<dyn Api>).map_err(|e| format!("{:?}", e))
-        }
-        Flavor::Async | Flavor::AsyncLocal => {
-            let b = AsyncCacheBuilder::<u64, Val, HKb>::new_with_key_builder(cfg.num_counters, cfg.max_cost, kb)
-                .set_buffer_size(cfg.buffer_size)
-                .set_buffer_items(cfg.buffer_items)
-                .set_metrics(cfg.metrics)
-                .set_ignore_internal_cost(cfg.ignore_internal_cost)
-                .set_cleanup_duration(Duration::from_millis(cfg.cleanup_ms))
-                .set_coster(HCoster(cfg.coster))
-                .set_update_validator(HValidator(cfg.validator.clone()))
-                .set_callback(cb)
-                .set_hasher(SeedState(cfg.hasher_seed));
-            b.finalize(async_spawner)
-                .map(|c| Box::new(c) as Box<dyn Api>)
-                .map_err(|e| format!("{:?}", e))
-        }
+        Flavor::Sync => recipe!(CacheBuilder).finalize().map(|c| Box::new(c) as Box<dyn Api>).map_err(|e| format!("{:?}", e)),
+        Flavor::Async | Flavor::AsyncLocal => recipe!(AsyncCacheBuilder).finalize(async_spawner).map(|c| Box::new(c) as Box<dyn Api>).map_err(|e| format!("{:?}", e)),
     }
 }
 
@@ -1104,8 +1155,13 @@ pub fn run_plan(plan: &Plan) {
             rt::block("controller.chaos-join", &move || sh.chaos_done.load(Ordering::SeqCst) >= n_chaos);
             log(EvKind::Note("drop_all".into()));
             drop(api);
-            // give the workers a fair chance to notice: they need scheduling points
-            for _ in 0..2000 {
+            // give the workers a fair chance to notice: they need scheduling points.  After the
+            // last handle is gone three of the processor's four select arms are ready for ever
+            // (disconnected channels), it leaves when the random pick lands on the stop arm, and
+            // a pick of the clear arm costs a whole clear (~270 steps): the budget must make
+            // "unlucky picks" (2/3 per round) impossible in practice, or this is a false alarm
+            // (seen once in 40000 runs with a budget of 2000 yields).
+            for _ in 0..30000 {
                 rt::yield_fair();
                 let t = rt::task_states();
                 if t.iter().filter(|(n, _)| n.starts_with("processor") || n.starts_with("policy_worker")).all(|(_, s)| s == "finished" || s.starts_with("panicked")) {
